@@ -211,11 +211,11 @@ def ptr_array_inst(n, tier):
           ('zero_loads_null', '__CPROVER_ensures(%s == 0 ==> (uintptr_t)$ret.data._M_elems[g_w] == 0)' % FROM),
           ('element_relative_to_cells_sandbox', '__CPROVER_ensures((%s != 0 && (uintptr_t)%s < V_SIZE[%s]) ==> (uintptr_t)$ret.data._M_elems[g_w] == V_BASE[%s] + (uintptr_t)%s)' % (FROM, FROM, W, W, FROM)),
           ('frame', '__CPROVER_assigns()')]
-    lc = ('__CPROVER_assigns(i, __CPROVER_object_whole($0))\n'
-          '__CPROVER_loop_invariant(i <= %d)\n'
-          '__CPROVER_loop_invariant((g_w < i && $1->_M_elems[g_w] == 0) ==> (uintptr_t)$0->_M_elems[g_w] == 0)\n'
-          '__CPROVER_loop_invariant((g_w < i && $1->_M_elems[g_w] != 0 && (uintptr_t)$1->_M_elems[g_w] < V_SIZE[V_WHICH((uintptr_t)$2)]) ==> (uintptr_t)$0->_M_elems[g_w] == V_BASE[V_WHICH((uintptr_t)$2)] + (uintptr_t)$1->_M_elems[g_w])\n'
-          '__CPROVER_decreases(%d - i)' % (n, n))
+    lc = ('__CPROVER_assigns($LV, __CPROVER_object_whole($0))\n'
+          '__CPROVER_loop_invariant($LV <= %d)\n'
+          '__CPROVER_loop_invariant((g_w < $LV && $1->_M_elems[g_w] == 0) ==> (uintptr_t)$0->_M_elems[g_w] == 0)\n'
+          '__CPROVER_loop_invariant((g_w < $LV && $1->_M_elems[g_w] != 0 && (uintptr_t)$1->_M_elems[g_w] < V_SIZE[V_WHICH((uintptr_t)$2)]) ==> (uintptr_t)$0->_M_elems[g_w] == V_BASE[V_WHICH((uintptr_t)$2)] + (uintptr_t)$1->_M_elems[g_w])\n'
+          '__CPROVER_decreases(%d - $LV)' % (n, n))
     h = REGIONS + ('  struct %s cell; unsigned long in_w; g_w = in_w; __CPROVER_assume(in_w < %d);\n'
                    '  __CPROVER_assume(V_WHICH((uintptr_t)&cell) != -1);\n  g_expect_example = (uintptr_t)&cell;\n'
                    '  struct %s r = $ROOT(&cell);\n' % (TVA, n, TA))
